@@ -230,6 +230,13 @@ Definition SrcTie_case (c : c05session) : N :=
   code (C05s_each (fun v obs => fres_eqb (src_render_string v) obs) c) true.
 """,
     },
+    "C08": {
+        "targets": ["markdown/markdown.go:mdCellEscape"],
+        "generated": "Generated/MarkdownSrc.v",
+        "proofs": ["Proofs/MarkdownSrcTie.v"],
+        "theorems": ["c08_source_is_model", "c08_source_neutral"],
+        "eval": None,     # no evaluation glue: a broken tie is recorded, the hand model and the correspondence decide
+    },
 }
 TIE_LP = "SrcTie"    # logical path of the fresh copies
 
